@@ -138,7 +138,15 @@ pub fn cmd_miri(prop: &str, seed: u64, n: u64) {
                 crate::driver::MIRI_PLANS.store(true, Ordering::SeqCst);
                 let kfs = crate::driver::known_findings();
                 let t0 = std::time::Instant::now();
-                let found = crate::dfamily::explore(p, s, false, &mut st);
+                let found = match std::panic::catch_unwind(std::panic::AssertUnwindSafe(|| crate::dfamily::explore(p, s, false, &mut st))) {
+                    Ok(f) => f,
+                    Err(e) => {
+                        // a panic of the harness itself in pass-through mode is not a verdict on
+                        // the tree: the scenario is skipped and said so
+                        println!("MIRI-TIER {} skipped: scenario seed {} ended with a harness panic: {}", p, s, crate::util::payload_string(&e).lines().next().unwrap_or(""));
+                        Vec::new()
+                    }
+                };
                 if std::env::var("VERIF_MIRI_TIMES").is_ok() {
                     println!("MIRI-TIME seed {} explore {:?}", s, t0.elapsed());
                 }
